@@ -302,9 +302,17 @@ func addDocument(d *indexData, ib *ShardBuilder, repoID int, docID uint32) error
 		return err
 	}
 
-	doc.SymbolsMetaData = make([]*zoekt.Symbol, len(doc.Symbols))
-	for i := range doc.SymbolsMetaData {
-		doc.SymbolsMetaData[i] = d.symbols.data(d.fileEndSymbol[docID] + uint32(i))
+	doc.SymbolsMetaData = make([]*zoekt.Symbol, 0, len(doc.Symbols))
+	for i := range doc.Symbols {
+		sym := d.symbols.data(d.fileEndSymbol[docID] + uint32(i))
+		if sym == nil {
+			// The shard carries symbol sections without metadata (documents
+			// added with Symbols only). Keep it that way instead of handing
+			// nil entries to addSymbols.
+			doc.SymbolsMetaData = nil
+			break
+		}
+		doc.SymbolsMetaData = append(doc.SymbolsMetaData, sym)
 	}
 
 	// calculate branches
